@@ -18,6 +18,7 @@ class Registry:
         self._loops = {}         # (relpath, qualname) -> {ordinal: LoopSpec}
         self._open = set()
         self._closures = {}
+        self.on_yield = None
         self._globals = {}       # (relpath|None, name) -> value or fn(I)
         self._modattr = {}       # (modname-suffix, name) -> value/fn
         self.value_methods = []  # fn(obj, name) -> hook | None
